@@ -4,18 +4,19 @@
 From Coq Require Import Ascii String List Bool Arith ZArith NArith Lia.
 From PTBase Require Import Exn PyStr PyNum PyVal Fmt FixedFormat.
 From Gen Require Import GenTables GenSections.
-From P Require Import Comb Obj Fields Sections SectionsB Rec SecRocks SecMesh SecGener SecMisc SecParam T2DataIO.
+From P Require Import Comb Obj Fields Sections SectionsB Rec SecRocks SecMesh SecGener SecMisc SecParam SecHist SecSel T2DataIO.
 Import ListNotations.
 Open Scope string_scope.
 
 (** the sections whose round trip is a theorem *)
 Definition covered : list string :=
-  ["SIMUL"; "ROCKS"; "PARAM"; "MOMOP"; "START"; "NOVER"; "RPCAP"; "LINEQ"; "SOLVR"; "MULTI"; "TIMES"; "ELEME"; "CONNE"; "GENER"; "INCON"].
+  ["SIMUL"; "ROCKS"; "PARAM"; "MOMOP"; "START"; "NOVER"; "RPCAP"; "LINEQ"; "SOLVR"; "MULTI"; "TIMES"; "ELEME"; "CONNE"; "GENER"; "INCON";
+   "SELEC"; "DIFFU"; "FOFT"; "COFT"; "GOFT"; "INDOM"].
 
 (** ** the regenerated tables and dispatch dictionaries have the shape the theorems need *)
 Definition tables_ok : bool :=
   rocks_table_ok T0 && blocks_table_ok T0 && conns_table_ok T0 && gener_table_ok T0 && incon_table_ok T0 &&
-  momop_table_ok T0 && times_table_ok T0 && simul_table_ok T0 && param_table_ok T0.
+  momop_table_ok T0 && times_table_ok T0 && simul_table_ok T0 && param_table_ok T0 && selec_table_ok T0.
 Lemma tables_ok_true : tables_ok = true.
 Proof. vm_compute. reflexivity. Qed.
 
@@ -39,6 +40,13 @@ Definition supd (k : string) (d d0 : t2d) : t2d :=
   else if k =? "CONNE" then set_conns d0 (canon_conns T0 (conns d))
   else if k =? "GENER" then set_gens d0 (canon_gens T0 (gens d))
   else if k =? "INCON" then set_incon d0 (canon_incons T0 d)
+  else if k =? "SELEC" then match selection d with Some x => set_selection d0 (Some (canon_selection T0 x)) | None => d0 end
+  else if k =? "DIFFU" then
+    match dget (multi d0) "num_phases" with Some (XInt np) => set_diffusion d0 (canon_diffusion T0 np (diffusion d)) | _ => d0 end
+  else if k =? "FOFT" then set_hist_block d0 (hist_block d)
+  else if k =? "COFT" then set_hist_conn d0 (hist_conn d)
+  else if k =? "GOFT" then set_hist_gen d0 (hist_gen d)
+  else if k =? "INDOM" then set_indom d0 (canon_indom T0 (indom d))
   else d0.
 
 (** what section k of [d] must satisfy for the reader in state [d0] *)
@@ -67,6 +75,16 @@ Definition secwf (k : string) (d d0 : t2d) : bool :=
   else if k =? "CONNE" then forallb (wf_conn T0 (blocks d0)) (conns d)
   else if k =? "GENER" then nonempty (gens d) && forallb (wf_gen T0) (gens d)
   else if k =? "INCON" then nonempty (incon d) && forallb (wf_inc T0) (incon_items d) && negb (nonempty (incon d0))
+  else if k =? "SELEC" then match selection d with Some x => wf_selection T0 x | None => false end
+  else if k =? "DIFFU" then
+    nonempty (diffusion d) && negb (nonempty (diffusion d0)) &&
+    match dget (multi d0) "num_components", dget (multi d0) "num_phases" with
+    | Some (XInt nc), Some (XInt _) => (nc =? Z.of_nat (length (diffusion d)))%Z
+    | _, _ => false end
+  else if k =? "FOFT" then nonempty (hist_block d) && forallb hname_ok (hist_block d) && forallb (keep_block d0) (hist_block d)
+  else if k =? "COFT" then nonempty (hist_conn d) && forallb hpair_ok (hist_conn d) && forallb (keep_conn d0) (hist_conn d)
+  else if k =? "GOFT" then nonempty (hist_gen d) && forallb hname_ok (hist_gen d) && forallb (keep_block d0) (hist_gen d)
+  else if k =? "INDOM" then nonempty (indom d) && forallb (wf_indom1) (indom d) && negb (nonempty (indom d0))
   else false.
 
 (** the call the keyword loop makes for keyword k (no extra-precision companion) *)
@@ -154,6 +172,30 @@ Lemma disp_INCON d0 line r : dispatch d0 "INCON" line r = lift (read_incons T0 d
 Proof. reflexivity. Qed.
 Lemma wsec_INCON d : wsec d "INCON" = write_incons T0 d.
 Proof. reflexivity. Qed.
+Lemma disp_SELEC d0 line r : dispatch d0 "SELEC" line r = lift (read_selection T0 d0 r).
+Proof. reflexivity. Qed.
+Lemma wsec_SELEC d : wsec d "SELEC" = write_selection T0 d.
+Proof. reflexivity. Qed.
+Lemma disp_DIFFU d0 line r : dispatch d0 "DIFFU" line r = lift (read_diffusion T0 d0 r).
+Proof. reflexivity. Qed.
+Lemma wsec_DIFFU d : wsec d "DIFFU" = write_diffusion T0 d.
+Proof. reflexivity. Qed.
+Lemma disp_FOFT d0 line r : dispatch d0 "FOFT" line r = lift (read_hist_block d0 r).
+Proof. reflexivity. Qed.
+Lemma wsec_FOFT d : wsec d "FOFT" = write_hist_block d.
+Proof. reflexivity. Qed.
+Lemma disp_COFT d0 line r : dispatch d0 "COFT" line r = lift (read_hist_conn d0 r).
+Proof. reflexivity. Qed.
+Lemma wsec_COFT d : wsec d "COFT" = write_hist_conn d.
+Proof. reflexivity. Qed.
+Lemma disp_GOFT d0 line r : dispatch d0 "GOFT" line r = lift (read_hist_gen d0 r).
+Proof. reflexivity. Qed.
+Lemma wsec_GOFT d : wsec d "GOFT" = write_hist_gen d.
+Proof. reflexivity. Qed.
+Lemma disp_INDOM d0 line r : dispatch d0 "INDOM" line r = lift (read_indom T0 d0 r).
+Proof. reflexivity. Qed.
+Lemma wsec_INDOM d : wsec d "INDOM" = write_indom T0 d.
+Proof. reflexivity. Qed.
 (** ** one section: the writer's lines start with the keyword line, the reader consumes exactly them *)
 Definition plain (k : string) : bool := negb (k =? "PARAM").
 Theorem section_step k d d0 lines : In k covered -> wsec d k = Ok lines -> secwf k d d0 = true ->
@@ -162,7 +204,7 @@ Theorem section_step k d d0 lines : In k covered -> wsec d k = Ok lines -> secwf
     else forall line nextl rest, next_ok0 nextl = true ->
          dispatch d0 k line (body ++ nextl :: rest)%list = Ok (supd k d d0, Some (padstring nextl), rest).
 Proof.
-  pose proof tables_ok_true as TK. unfold tables_ok in TK.
+  pose proof tables_ok_true as TK. unfold tables_ok in TK. apply andb_prop in TK as [TK K10].
   apply andb_prop in TK as [TK K9]. apply andb_prop in TK as [TK K8]. apply andb_prop in TK as [TK K7].
   apply andb_prop in TK as [TK K6]. apply andb_prop in TK as [TK K5]. apply andb_prop in TK as [TK K4].
   apply andb_prop in TK as [TK K3]. apply andb_prop in TK as [K1 K2].
@@ -268,7 +310,52 @@ Proof.
     destruct lines as [|l0 body]; [unfold write_incons in W; destruct (incon d); [discriminate|]; destruct (write_list _ _); discriminate|].
     assert (l0 = kw "INCON").
     { unfold write_incons in W. destruct (incon d); [discriminate|]. destruct (write_list _ _); cbn [bind] in W; [|discriminate]. inversion W; reflexivity. }
-    subst l0. exists body. split; [reflexivity|]. intros line rest. rewrite disp_INCON. unfold lift. rewrite (incons_roundtrip T0 d body K5 W WF d0 rest I0). reflexivity.
+    subst l0. exists body. split; [reflexivity|]. intros line rest. rewrite disp_INCON. unfold lift. rewrite (incons_roundtrip T0 d body K5 W WF d0 rest I0). reflexivity.  - (* SELEC *)
+    rewrite wsec_SELEC in W. destruct (selection d) as [x|] eqn:SX; [|discriminate].
+    destruct lines as [|l0 body].
+    { unfold write_selection in W. rewrite SX in W. destruct x. destruct (wline _ _ _); cbn [bind] in W; [|discriminate].
+      destruct (v_nat _); cbn [bind] in W; [|discriminate]. destruct (write_chunks _ _ _ _); discriminate. }
+    assert (l0 = kw "SELEC").
+    { unfold write_selection in W. rewrite SX in W. destruct x. destruct (wline _ _ _); cbn [bind] in W; [|discriminate].
+      destruct (v_nat _); cbn [bind] in W; [|discriminate]. destruct (write_chunks _ _ _ _); cbn [bind] in W; [|discriminate]. inversion W; reflexivity. }
+    subst l0. exists body. split; [reflexivity|]. intros line rest. rewrite disp_SELEC. unfold lift.
+    rewrite (selection_roundtrip T0 d x body K10 SX W WF d0 rest). reflexivity.
+  - (* DIFFU *)
+    rewrite wsec_DIFFU in W. apply andb_prop in WF as [WF MC]. apply andb_prop in WF as [NE E0].
+    assert (I0 : diffusion d0 = []) by (destruct (diffusion d0); [reflexivity|discriminate]).
+    destruct (dget (multi d0) "num_components") as [[|nc| |]|] eqn:NC; try discriminate.
+    destruct (dget (multi d0) "num_phases") as [[|np| |]|] eqn:NP; try discriminate. apply Z.eqb_eq in MC. subst nc.
+    destruct lines as [|l0 body]; [unfold write_diffusion in W; destruct (diffusion d); [discriminate|]; destruct (mapM _ _); discriminate|].
+    assert (l0 = kw "DIFFU").
+    { unfold write_diffusion in W. destruct (diffusion d); [discriminate|]. destruct (mapM _ _); cbn [bind] in W; [|discriminate]. inversion W; reflexivity. }
+    subst l0. exists body. split; [reflexivity|]. intros line rest. rewrite disp_DIFFU. unfold lift.
+    rewrite (diffusion_roundtrip T0 d body W d0 rest np NC NP I0). reflexivity.
+  - (* FOFT *)
+    rewrite wsec_FOFT in W. apply andb_prop in WF as [WF KP]. apply andb_prop in WF as [NE HN].
+    destruct lines as [|l0 body]; [unfold write_hist_block, write_names in W; destruct (hist_block d); discriminate|].
+    assert (l0 = kw "FOFT") by (unfold write_hist_block, write_names in W; destruct (hist_block d); [discriminate|]; inversion W; reflexivity).
+    subst l0. exists body. split; [reflexivity|]. intros line rest. rewrite disp_FOFT. unfold lift.
+    rewrite (foft_roundtrip d body W d0 rest HN KP). reflexivity.
+  - (* COFT *)
+    rewrite wsec_COFT in W. apply andb_prop in WF as [WF KP]. apply andb_prop in WF as [NE HN].
+    destruct lines as [|l0 body]; [unfold write_hist_conn in W; destruct (hist_conn d); discriminate|].
+    assert (l0 = kw "COFT") by (unfold write_hist_conn in W; destruct (hist_conn d); [discriminate|]; inversion W; reflexivity).
+    subst l0. exists body. split; [reflexivity|]. intros line rest. rewrite disp_COFT. unfold lift.
+    rewrite (coft_roundtrip d body W d0 rest HN KP). reflexivity.
+  - (* GOFT *)
+    rewrite wsec_GOFT in W. apply andb_prop in WF as [WF KP]. apply andb_prop in WF as [NE HN].
+    destruct lines as [|l0 body]; [unfold write_hist_gen, write_names in W; destruct (hist_gen d); discriminate|].
+    assert (l0 = kw "GOFT") by (unfold write_hist_gen, write_names in W; destruct (hist_gen d); [discriminate|]; inversion W; reflexivity).
+    subst l0. exists body. split; [reflexivity|]. intros line rest. rewrite disp_GOFT. unfold lift.
+    rewrite (goft_roundtrip d body W d0 rest HN KP). reflexivity.
+  - (* INDOM *)
+    rewrite wsec_INDOM in W. apply andb_prop in WF as [WF E0]. apply andb_prop in WF as [NE WI].
+    assert (I0 : indom d0 = []) by (destruct (indom d0); [reflexivity|discriminate]).
+    destruct lines as [|l0 body]; [unfold write_indom in W; destruct (indom d); [discriminate|]; destruct (write_list _ _); discriminate|].
+    assert (l0 = kw "INDOM").
+    { unfold write_indom in W. destruct (indom d); [discriminate|]. destruct (write_list _ _); cbn [bind] in W; [|discriminate]. inversion W; reflexivity. }
+    subst l0. exists body. split; [reflexivity|]. intros line rest. rewrite disp_INDOM. unfold lift.
+    rewrite (indom_roundtrip T0 d body W WI d0 rest I0). reflexivity.
 Qed.
 
 (** ** the keyword loop *)
@@ -305,8 +392,7 @@ Lemma xprec_supd k d d0 : xprec (push k (supd k d d0)) = xprec d0.
 Proof.
   unfold push, supd.
   repeat match goal with |- context [if ?b then _ else _] => destruct b; [try reflexivity|] end; try reflexivity.
-  - destruct (strip_eos _); reflexivity.
-  - destruct (otimes d); reflexivity.
+  all: repeat match goal with |- context [match ?x with _ => _ end] => destruct x end; reflexivity.
 Qed.
 
 (** one turn of the loop on a covered keyword line, read from the file or handed over as look-ahead *)
@@ -459,7 +545,7 @@ Proof.
   intros W US SK XP EK TI CH.
   destruct (write_lines_shape d ls W US XP) as [all [WS EL]]. subst ls. rewrite SK in WS.
   pose proof tables_ok_true as TK. unfold tables_ok in TK.
-  apply andb_prop in TK as [TK _]. apply andb_prop in TK as [_ K8]. unfold simul_table_ok in K8. apply andb_prop in K8 as [_ SHT].
+  apply andb_prop in TK as [TK _]. apply andb_prop in TK as [TK _]. apply andb_prop in TK as [_ K8]. unfold simul_table_ok in K8. apply andb_prop in K8 as [_ SHT].
   unfold title_ok in TI. apply andb_prop in TI as [NL LT]. apply Nat.leb_le in LT.
   unfold read_lines, read_files. cbn [f_main f_mesh f_pdat].
   unfold read_title. cbn [readline]. rewrite (line80 "title" _ SHT NL LT). fold (start_state d).
@@ -475,3 +561,8 @@ Proof.
     rewrite xprec_final. reflexivity. }
   rewrite XF. destruct read_reinfers_echo; reflexivity.
 Qed.
+
+(** the extra-precision table has the same shape for the sections the companion file holds *)
+Definition xp_tables_ok : bool := rocks_table_ok T1 && blocks_table_ok T1 && conns_table_ok T1 && gener_table_ok T1.
+Lemma xp_tables_ok_true : xp_tables_ok = true.
+Proof. vm_compute. reflexivity. Qed.
